@@ -172,7 +172,7 @@ theorem nthp_two_mul_add_one_le_p {n : ℕ} (hn : 5 ≤ n) : 2 * n + 1 ≤ Spec.
 
 /-! ### the table -/
 
-lemma noDivFrom_sound (m : ℕ) : ∀ f d, noDivFrom m f d = true → m < (d + f) * (d + f) →
+lemma nthp_noDivFrom_sound (m : ℕ) : ∀ f d, noDivFrom m f d = true → m < (d + f) * (d + f) →
     ∀ e, d ≤ e → e * e ≤ m → ¬ e ∣ m := by
   intro f
   induction f with
@@ -190,7 +190,7 @@ lemma noDivFrom_sound (m : ℕ) : ∀ f d, noDivFrom m f d = true → m < (d + f
       · rw [Nat.dvd_iff_mod_eq_zero]; exact h2
       · exact ih (d + 1) h (by rw [show d + 1 + f = d + (f + 1) by omega]; exact hlt) e hlt' hee
 
-lemma noDivFrom_complete {m : ℕ} (hm : m.Prime) : ∀ f d, 2 ≤ d → noDivFrom m f d = true := by
+lemma nthp_noDivFrom_complete {m : ℕ} (hm : m.Prime) : ∀ f d, 2 ≤ d → noDivFrom m f d = true := by
   intro f
   induction f with
   | zero => intro d _; rfl
@@ -215,9 +215,9 @@ theorem primeB_iff (m : ℕ) : primeB m = true ↔ m.Prime := by
   · rintro ⟨h2, h⟩
     rw [Nat.prime_def_le_sqrt]
     refine ⟨h2, fun e he hes => ?_⟩
-    exact noDivFrom_sound m m 2 h (by nlinarith) e he (Nat.le_sqrt.1 hes)
+    exact nthp_noDivFrom_sound m m 2 h (by nlinarith) e he (Nat.le_sqrt.1 hes)
   · intro hm
-    exact ⟨hm.two_le, noDivFrom_complete hm m 2 le_rfl⟩
+    exact ⟨hm.two_le, nthp_noDivFrom_complete hm m 2 le_rfl⟩
 
 lemma noPrimeB_sound (s : ℕ) : ∀ k, noPrimeB s k = true → ∀ m, s ≤ m → m < s + k → ¬ m.Prime := by
   intro k
